@@ -36,6 +36,10 @@ def check(repo, col, tier):
     _share(repo, col)
 
 
+def _self(t: T) -> bool:
+    return t.op == "param" and t.name == "self"
+
+
 def _has_closure(t: T):
     for x in t.walk():
         if x.op in ("lambda", "localfn"):
@@ -403,14 +407,40 @@ def _share(repo, col):
             n += 1
             col.ok(R, ci.file, f"class-level container {cname}.{k} recorded", "", func=cname, node=ci.node)
     fi = repo.method("Network", "__init__")
-    src = unparse(fi.node)
-    col.check("self.xyzr += deepcopy(cell.xyzr)" in src, R, fi, "Network copies the coordinates of its cells",
-              "deepcopy(cell.xyzr)", "the network shares the coordinate arrays with its cells: moving the network moves the cells", node=fi.node)
-    col.check("del self._cells_list" in src, R, fi, "Network drops its reference to the cell list after construction", "del self._cells_list",
-              "the network keeps the list of cells it was built from", node=fi.node)
+    exn = idx.expander(repo, fi)
+    # whatever reaches self.xyzr from a cell is a deep copy
+    xs = [s_ for s_ in exn.stores if (s_.kind in ("aug", "mcall") and s_.base.op == "attr" and s_.base.name == "xyzr" and _self(s_.base.args[0])) or
+          (s_.kind == "attr" and s_.key.name == "xyzr" and _self(s_.base))]
+    shared, copied = [], 0
+    for s_ in xs:
+        def scan(t, under_copy):
+            nonlocal copied
+            if t.op == "attr" and t.name == "xyzr" and not _self(t.args[0]):
+                if under_copy:
+                    copied += 1
+                else:
+                    shared.append(t)
+                return
+            uc = under_copy or (t.op in ("call", "mcall") and t.name in ("deepcopy",))
+            for a_ in list(t.args) + list(t.kw.values()):
+                scan(a_, uc)
+        if s_.value is not None:
+            scan(s_.value, False)
+    col.add(R, fi, "Network copies the coordinates of its cells", "DISCHARGED" if (copied and not shared) else ("VIOLATED" if shared else "UNDECIDED"),
+            "deepcopy(cell.xyzr)" if (copied and not shared) else
+            ("the network stores the coordinate arrays of its cells themselves: moving the network moves the cells (and copies share them)"
+             if shared else "no store of cell coordinates into self.xyzr found"), node=xs[0].node if xs else fi.node)
+    dels = [n_ for n_ in fi.node.body if isinstance(n_, ast.Delete) and any(isinstance(t_, ast.Attribute) and t_.attr == "_cells_list" and
+                                                                            isinstance(t_.value, ast.Name) and t_.value.id == "self" for t_ in n_.targets)]
+    dels += [n_ for n_ in fi.node.body if isinstance(n_, ast.Assign) and isinstance(n_.value, ast.Constant) and n_.value.value is None and
+             any(isinstance(t_, ast.Attribute) and t_.attr == "_cells_list" for t_ in n_.targets)]
+    col.check(bool(dels), R, fi, "Network drops its reference to the cell list after construction", "del self._cells_list (unconditional)",
+              "the network keeps the list of cells it was built from: pickles and copies of the network carry (and share) the cells", node=fi.node)
     vi = repo.method("View", "__init__")
-    src = unparse(vi.node)
-    col.check("self.base = pointer.base" in src, R, vi, "a View shares the base module by reference (by design) and nothing else mutable of the pointer",
-              "", "View no longer forwards the base module", node=vi.node)
+    exv = idx.expander(repo, vi)
+    bs = [s_ for s_ in exv.stores if s_.kind == "attr" and s_.key.name == "base" and _self(s_.base)]
+    ok = bool(bs) and all(s_.value.op == "attr" and s_.value.name == "base" and s_.value.args[0].op == "param" for s_ in bs)
+    col.check(ok, R, vi, "a View shares the base module by reference (by design) and nothing else mutable of the pointer",
+              "self.base = pointer.base", f"View stores {[s_.value.short(40) for s_ in bs]} as its base", node=vi.node)
     if n < 3:
         raise AnalysisError("sharing rule found too few instances")
